@@ -20,6 +20,11 @@ def run(tier, seed):
     # redirect exceptions the optimiser may fuse (not hostname anchored, one mask, one bucket)
     _, repx = netcommon.mc_and_replay(v, wd, "c13x", 2 if tier == "quick" else 3, False)
     vlib.require(repx["nontrivial"] > 20, "c13x replay too small")
+    # redirect rules and redirect exceptions added one at a time to a blocker whose resources are loaded, replaced and
+    # extended along the way (Blocker::add_filter files a rule in several lists; resources are looked up at query time)
+    from checks import enginecommon
+    _, reph, _ = enginecommon.histories(v, wd, "blocker", 3 if tier == "quick" else 4, initset="res")
+    vlib.require(reph["nontrivial"] > 30, "resource/add_filter history replay too small")
     v.assumptions += ["resources carry their own name as content so that the served data-URL identifies the chosen resource",
                       "third-party computed in the spec with single-label public suffixes"]
     return v.finish("model_checking", rule % k, exhaustive=True)
